@@ -308,4 +308,170 @@ theorem runA_inv (base : Nat) (cfg : Cfg) (ok : CfgOK cfg) (hWd : cfg.W ∣ 2 ^ 
         (stepA_inv base cfg ok hWd hW16 h op r (hsz op (by simp)) hi hlim hs)
         (stepA_reach base cfg h op r hreach hs) hr
 
+
+/-! ### pools: the stores of `pool_engage`, zones outside its precondition, twins -/
+
+/-- every cell of the zone gets its link store -/
+theorem engageEvs_mem (e b n : Nat) (he : 0 < e) : ∀ fuel k j, k ≤ j → j < n → n - k < fuel →
+    Ev.w (b + j * e) 8 ∈ engageEvs e (b + n * e) fuel (b + k * e) := by
+  intro fuel
+  induction fuel with
+  | zero => intro k j _ _ h; omega
+  | succ fuel ih =>
+    intro k j hkj hjn hf
+    have hkn : k * e < n * e := Nat.mul_lt_mul_of_pos_right (by omega) he
+    simp only [engageEvs]
+    rw [if_pos (by omega)]
+    by_cases hjk : j = k
+    · subst hjk; simp
+    · have h2 : b + k * e + e = b + (k + 1) * e := by rw [Nat.add_mul, Nat.one_mul]; omega
+      rw [h2]
+      exact List.mem_cons_of_mem _ (ih (k + 1) j (by omega) hjn (by omega))
+
+/-- a zone that is not whole cells: `while (it < stop)` behaves as for the next multiple -/
+theorem engageLoop_ragged (e q r : Nat) (hr0 : 0 < r) (hre : r < e) : ∀ fuel k fl,
+    engageLoop e (q * e + r) fuel (k * e) fl = engageLoop e ((q + 1) * e) fuel (k * e) fl := by
+  intro fuel
+  induction fuel with
+  | zero => intro k fl; rfl
+  | succ fuel ih =>
+    intro k fl
+    simp only [engageLoop]
+    have h1 : (q + 1) * e = q * e + e := by rw [Nat.add_mul, Nat.one_mul]
+    have h2 : k * e + e = (k + 1) * e := by rw [Nat.add_mul, Nat.one_mul]
+    by_cases hk : k ≤ q
+    · have : k * e ≤ q * e := Nat.mul_le_mul_right e hk
+      rw [if_pos (by omega), if_pos (by omega), h2]
+      exact ih (k + 1) _
+    · have : (q + 1) * e ≤ k * e := Nat.mul_le_mul_right e (by omega)
+      rw [if_neg (by omega), if_neg (by omega)]
+
+/-- the spec of one allocation from a set of blocks, read off a free list that together with the
+live blocks is a permutation of the blocks -/
+theorem perm_alloc_spec {free live blocks : List Nat} (hp : (free ++ live).Perm blocks) (hnd : blocks.Nodup) :
+    (free = [] → ∀ c ∈ blocks, c ∈ live) ∧
+    (∀ c rest, free = c :: rest → c ∈ blocks ∧ c ∉ live) := by
+  refine ⟨fun h c hc => ?_, fun c rest h => ?_⟩
+  · subst h; exact (hp.mem_iff).2 hc
+  · subst h
+    have hnd' : ((c :: rest) ++ live).Nodup := hp.nodup_iff.2 hnd
+    refine ⟨(hp.mem_iff).1 (by simp), fun hl => ?_⟩
+    simp only [List.cons_append, List.nodup_cons, List.mem_append] at hnd'
+    exact hnd'.1 (Or.inr hl)
+
+/-- `get()` histories of igris::pool are `pool_alloc` histories of its `pool_head` -/
+theorem irun_gets : ∀ (k : Nat) (s s' : IState), irun s (List.replicate k .get) = some s' →
+    prun ⟨s.pool.head, s.live⟩ (List.replicate k .alloc) = some ⟨s'.pool.head, s'.live⟩ := by
+  intro k
+  induction k with
+  | zero => intro s s' h; simp only [List.replicate, irun, Option.some.injEq] at h; subst h; rfl
+  | succ k ih =>
+    intro s s' h
+    simp only [List.replicate, irun] at h
+    split at h
+    · cases h
+    · rename_i s1 ret hs
+      have := ih s1 s' h
+      simp only [List.replicate, prun]
+      simp only [istep, IPool.get, Pool.alloc] at hs
+      cases hfr : s.pool.head.free with
+      | nil =>
+        rw [hfr] at hs; simp only [Option.some.injEq, Prod.mk.injEq] at hs
+        obtain ⟨rfl, _⟩ := hs
+        simp only [pstep, Pool.alloc, hfr]
+        simpa [hfr] using this
+      | cons c rest =>
+        rw [hfr] at hs; simp only [Option.some.injEq, Prod.mk.injEq] at hs
+        obtain ⟨rfl, _⟩ := hs
+        simp only [pstep, Pool.alloc, hfr]
+        simpa using this
+
+/-- `create()` histories of static_object_pool are `pool_alloc` histories of its `pool_head` -/
+theorem srun_creates : ∀ (k : Nat) (s s' : SOP), srun s (List.replicate k .create) = some s' →
+    prun ⟨s.head, s.objs⟩ (List.replicate k .alloc) = some ⟨s'.head, s'.objs⟩ := by
+  intro k
+  induction k with
+  | zero => intro s s' h; simp only [List.replicate, srun, Option.some.injEq] at h; subst h; rfl
+  | succ k ih =>
+    intro s s' h
+    simp only [List.replicate, srun] at h
+    split at h
+    · cases h
+    · rename_i s1 ret hs
+      have := ih s1 s' h
+      simp only [List.replicate, prun]
+      simp only [sstep, SOP.create, Pool.alloc, Option.some.injEq, Prod.mk.injEq] at hs
+      cases hfr : s.head.free with
+      | nil =>
+        rw [hfr] at hs
+        obtain ⟨rfl, _⟩ := hs
+        simp only [pstep, Pool.alloc, hfr]
+        simpa [hfr] using this
+      | cons c rest =>
+        rw [hfr] at hs
+        obtain ⟨rfl, _⟩ := hs
+        simp only [pstep, Pool.alloc, hfr]
+        simpa using this
+
+
+/-! ### a concrete byte memory -/
+
+/-- the stores executed on a concrete byte memory: `memcpy` copies byte by byte (source read
+before the call), an allocator store of a header word writes bytes `junk x` (whatever the
+word's bytes are: the theorems hold for every `junk`) -/
+def execJ (junk : Nat → Nat) : Mem → List Ev → Mem
+  | m, [] => m
+  | m, .w a n :: es => execJ junk (fun x => if a ≤ x ∧ x < a + n then junk x else m x) es
+  | m, .cp d s n :: es => execJ junk (fun x => if d ≤ x ∧ x < d + n then m (s + (x - d)) else m x) es
+
+/-- the concrete run is one of the memories the event semantics admits -/
+theorem exec_execJ (junk : Nat → Nat) : ∀ (evs : List Ev) (m : Mem), Exec m evs (execJ junk m evs) := by
+  intro evs
+  induction evs with
+  | nil => intro m; rfl
+  | cons e es ih =>
+    intro m
+    cases e with
+    | w a n =>
+      refine ⟨_, ?_, ih _⟩
+      intro x hx
+      show (if a ≤ x ∧ x < a + n then junk x else m x) = m x
+      rw [if_neg hx]
+    | cp d s n =>
+      refine ⟨_, ⟨?_, ?_⟩, ih _⟩
+      · intro i hi
+        show (if d ≤ d + i ∧ d + i < d + n then m (s + (d + i - d)) else m (d + i)) = m (s + i)
+        rw [if_pos (by omega)]
+        congr 1; omega
+      · intro x hx
+        show (if d ≤ x ∧ x < d + n then m (s + (x - d)) else m x) = m x
+        rw [if_neg hx]
+
+theorem free_live_eq {h : Heap} {p : Nat} {r : Res} (hr : free h p = some r) :
+    r.h.live = remove (p - 8) h.live := by
+  unfold free at hr
+  split at hr
+  · cases hr
+  · simp only at hr
+    split at hr
+    · cases hr
+    · split at hr
+      · split at hr <;> (simp only [Option.some.injEq] at hr; subst hr; rfl)
+      · split at hr <;> (simp only [Option.some.injEq] at hr; subst hr; rfl)
+
+/-- addresses of live chunks are pairwise distinct: after unlinking the chunk at `a` no chunk
+at `a` is left -/
+theorem lookup_remove_none {cfg : Cfg} {h : Heap} {a sz : Nat} (hi : HInv cfg h)
+    (hl : lookup a h.live = some sz) : lookup a (remove a h.live) = none := by
+  cases hl2 : lookup a (remove a h.live) with
+  | none => rfl
+  | some s2 =>
+    exfalso
+    have hm := lookup_mem hl2
+    have h1 := hasN_le_cnt (x := a) hm
+    have h2 := cnt_remove (x := a) hl
+    have h3 := hi.tile a
+    have h4 : hasN a (a, sz) = 1 := by unfold hasN; rw [if_pos (by simp; omega)]
+    have h5 : hasN a (a, s2) = 1 := by unfold hasN; rw [if_pos (by simp; omega)]
+    split at h3 <;> omega
 end Igris.C10
